@@ -201,8 +201,15 @@ def related_tests(path):
     return [t for t in c if os.path.exists(os.path.join(REPO, t))]
 
 
+SHIM = '''import importlib, os
+def resource_filename(pkg, name):
+    return os.path.join(os.path.dirname(importlib.import_module(pkg).__file__), name)
+'''
+
+
 def evaluate(job):
-    prop, path, ranges, index, with_tests = job
+    prop, path, ranges, index, with_tests = job[:5]
+    tests_only = len(job) > 5 and job[5]
     desc, text = make_mutant(path, ranges, index)
     scratch = tempfile.mkdtemp(prefix='mc-%s-' % prop, dir='/tmp')
     dst = os.path.join(scratch, 'repo')
@@ -214,25 +221,37 @@ def evaluate(job):
         import difflib
         rec['diff'] = [l for l in difflib.unified_diff(orig.splitlines(), text.splitlines(), lineterm='', n=0)][2:12]
         env = dict(os.environ, VERIF_REPO=dst, VERIF_NO_EVIDENCE='1')
-        r = subprocess.run([os.path.join(VERIF, 'check'), prop, '--tier', 'quick'], env=env, capture_output=True, text=True)
-        rec['check_exit'] = r.returncode
-        rec['check_lines'] = [l[:200] for l in r.stdout.splitlines() if l.startswith(('VIOLATION', 'INCONCLUSIVE'))][:2]
-        if r.returncode == 0 and with_tests:
-            penv = dict(os.environ, PYTHONPATH=dst)
+        if tests_only:
+            rec['check_exit'] = 0
+        else:
+            r = subprocess.run([os.path.join(VERIF, 'check'), prop, '--tier', 'quick'], env=env, capture_output=True, text=True)
+            rec['check_exit'] = r.returncode
+            rec['check_lines'] = [l[:200] for l in r.stdout.splitlines() if l.startswith(('VIOLATION', 'INCONCLUSIVE'))][:2]
+        if rec['check_exit'] == 0 and with_tests:
+            # the whole upstream suite (with a stand-in for the missing pkg_resources, so that the 14 otherwise uncollectable
+            # files - the golden CLI tests among them - run too); the related files first because they fail fastest
+            shim = os.path.join(scratch, 'shim', 'pkg_resources')
+            os.makedirs(shim)
+            open(os.path.join(shim, '__init__.py'), 'w').write(SHIM)
+            penv = dict(os.environ, PYTHONPATH=dst + os.pathsep + os.path.dirname(shim), PATH=os.path.join(dst, 'bin') + os.pathsep + os.environ['PATH'])
             penv.pop('VERMOUTH_VERIF', None)
+
+            def run(args):
+                for attempt in range(2):     # test_logging.py is flaky under hypothesis: one retry with a clean example store
+                    shutil.rmtree(os.path.join(dst, '.hypothesis'), ignore_errors=True)
+                    t = subprocess.run(['/venv/bin/python', '-m', 'pytest', '-q', '-p', 'no:cacheprovider', '--timeout=900'] + args,
+                                       cwd=dst, env=penv, capture_output=True, text=True)
+                    last = (t.stdout.strip().splitlines() or ['?'])[-1]
+                    good = ' failed' not in last and ' error' not in last and 'passed' in last
+                    if good or 'test_logging' not in t.stdout:
+                        break
+                return good, last[:200]
             rel = related_tests(path)
             ok = True
             if rel:
-                t = subprocess.run(['/venv/bin/python', '-m', 'pytest', '-q', '-x', '-p', 'no:cacheprovider', '--timeout=600'] + rel,
-                                   cwd=dst, env=penv, capture_output=True, text=True)
-                ok = t.returncode == 0
-                rec['related_tests'] = (t.stdout.strip().splitlines() or ['?'])[-1][:200]
+                ok, rec['related_tests'] = run(['-x'] + rel)
             if ok:
-                t = subprocess.run(['/venv/bin/python', '-m', 'pytest', '-q', '-x', '-p', 'no:cacheprovider', '--timeout=900',
-                                    '--continue-on-collection-errors', '-n', '4', 'vermouth'], cwd=dst, env=penv, capture_output=True, text=True)
-                last = (t.stdout.strip().splitlines() or ['?'])[-1]
-                rec['full_tests'] = last[:200]
-                ok = ' failed' not in last and 'passed' in last
+                ok, rec['full_tests'] = run(['-x', '-n', '4', 'vermouth'])
             rec['survives_tests'] = ok
     except Exception as e:   # noqa
         rec['error'] = repr(e)
@@ -251,7 +270,27 @@ def main():
     ap.add_argument('--no-tests', action='store_true')
     ap.add_argument('--only-file', default=None)
     ap.add_argument('--out', default='/root/mut')
+    ap.add_argument('--retest', action='store_true', help='re-run only the repository tests for the mutants the check did not notice')
     a = ap.parse_args()
+    if a.retest:
+        outp = os.path.join(a.out, '%s.jsonl' % a.prop)
+        recs = [json.loads(l) for l in open(outp)]
+        targets = parse_anchors(a.prop)
+        jobs = [(a.prop, r['file'], (None if a.whole_file else targets.get(r['file']) or None), r['index'], True, True)
+                for r in recs if r.get('check_exit') == 0 and 'error' not in r]
+        new = {}
+        with ThreadPoolExecutor(a.jobs) as ex:
+            for rec in ex.map(evaluate, jobs):
+                new[(rec['file'], rec['index'])] = rec
+                print('%-26s %s %s | %s' % ('UNNOTICED-and-tests-pass' if rec.get('survives_tests') else 'unnoticed-tests-fail',
+                                            rec['file'], rec['mutation'], rec.get('full_tests') or rec.get('related_tests')), flush=True)
+        with open(outp, 'w') as f:
+            for r in recs:
+                n = new.get((r['file'], r['index']))
+                if n:
+                    r.update({k: v for k, v in n.items() if k in ('related_tests', 'full_tests', 'survives_tests', 'mutation', 'diff')})
+                f.write(json.dumps(r) + '\n')
+        return
     os.makedirs(a.out, exist_ok=True)
     targets = parse_anchors(a.prop)
     jobs = []
